@@ -471,6 +471,11 @@ fn plan_base(prop: &str) -> Vec<Item> {
             v.extend(prog_sweep(&[], &[0, 2], None, 1, None, 1));
         }
         "C03" => {
+            // a sync caller that is handed its queue leaves the other queues' schedule entries alone (seeds C06-k, C10-k, C09-k)
+            for stale in [0, 1] {
+                v.push(it("claim_others", &format!("pool=1,stale={}", stale), Some(2), 3));
+            }
+            v.push(it("claim_others", "pool=2,stale=1", Some(1), 2));
             for pool in [1, 2, 3] {
                 v.push(it("f2_dormant_race", &format!("pool={}", pool), Some(if pool == 1 { 3 } else { 2 }), if pool == 1 { 4 } else { 3 }));
             }
@@ -623,6 +628,11 @@ fn plan_base(prop: &str) -> Vec<Item> {
             }
         }
         "C06" => {
+            // a sync caller that is handed its queue leaves the other queues' schedule entries alone (seeds C06-k, C10-k, C09-k)
+            for stale in [0, 1] {
+                v.push(it("claim_others", &format!("pool=1,stale={}", stale), Some(2), 3));
+            }
+            v.push(it("claim_others", "pool=2,stale=1", Some(1), 2));
             for kind in [0, 1] {
                 for wake in [0, 1, 2] {
                     for pool in [1, 2] {
@@ -776,6 +786,11 @@ fn plan_base(prop: &str) -> Vec<Item> {
             v.extend(prog_pairs(&["T"], "pool=1,busy=1,late=1", true, Some(1), 2, 1));
         }
         "C10" => {
+            // a sync caller that is handed its queue leaves the other queues' schedule entries alone (seeds C06-k, C10-k, C09-k)
+            for stale in [0, 1] {
+                v.push(it("claim_others", &format!("pool=1,stale={}", stale), Some(2), 3));
+            }
+            v.push(it("claim_others", "pool=2,stale=1", Some(1), 2));
             v.push(it("indep", "pool=2,k=1,mode=0,syncer=0", Some(1), 2));
             v.push(it("indep", "pool=2,k=1,mode=1,syncer=0", Some(1), 2));
             v.push(it("indep", "pool=2,k=1,mode=0,syncer=1", Some(1), 1));
@@ -1076,6 +1091,7 @@ pub fn owners(scenario: &str, part: &str) -> Vec<&'static str> {
         "repoll" => vec!["C07", "C01", "C04"],
         "nested_wait" => vec!["C04", "C03"],
         "drop_plain" => vec!["C05"],
+        "claim_others" => vec!["C06", "C10", "C03"],
         "order_ctx" => vec!["C02", "C03"],
         "pipe_in_items" => vec!["C11", "C03"],
         "pipe_out" | "pipe_steal" | "pipe_rewake" | "pipe_partial" | "pipe_fs" => vec!["C12", "C03"],
